@@ -134,17 +134,12 @@ func UpdatePathAttrs4ByteAs(logger *slog.Logger, msg *bgp.BGPUpdate) {
 		return
 	}
 
+	// RFC 6793 4.2.3 compares numbers of AS numbers; confederation segments
+	// do not count (ASLen() is 0 for them), on either side.
 	asLen := 0
-	asConfedLen := 0
 	asParams := make([]bgp.AsPathParamInterface, 0, len(asAttr.Value))
 	for _, param := range asAttr.Value {
 		asLen += param.ASLen()
-		switch param.GetType() {
-		case bgp.BGP_ASPATH_ATTR_TYPE_CONFED_SET:
-			asConfedLen++
-		case bgp.BGP_ASPATH_ATTR_TYPE_CONFED_SEQ:
-			asConfedLen += len(param.GetAS())
-		}
 		asParams = append(asParams, param)
 	}
 
@@ -177,19 +172,25 @@ func UpdatePathAttrs4ByteAs(logger *slog.Logger, msg *bgp.BGPUpdate) {
 		}
 	}
 
-	if asLen+asConfedLen < as4Len {
+	if asLen < as4Len {
 		logger.Warn("AS4_PATH is longer than AS_PATH. ignore AS4_PATH",
 			slog.String("Topic", "Table"))
 		return
 	}
 
-	keepNum := asLen + asConfedLen - as4Len
+	keepNum := asLen - as4Len
 
 	newParams := make([]bgp.AsPathParamInterface, 0, len(asAttr.Value))
 	for _, param := range asParams {
+		if param.ASLen() == 0 {
+			// confederation segment: kept while it is leading or adjacent
+			// to a kept segment, never counted
+			newParams = append(newParams, param)
+			continue
+		}
 		// nothing (more) to take from AS_PATH; taking "the first 0 members"
 		// used to leave an empty segment behind
-		if keepNum <= 0 && param.ASLen() > 0 {
+		if keepNum <= 0 {
 			break
 		}
 		if keepNum-param.ASLen() >= 0 {
